@@ -3,7 +3,7 @@ CONSTANTS
   Conns = {"c1", "c2", "c3"}
   MemberOf <- MO
   Channels = {"a", "ab", "b"}
-  Patterns = {"a*", "*"}
+  Patterns = {"a*", "*", "ab"}
   MaxOps = 3
   Export = FALSE
 VIEW view
